@@ -99,7 +99,7 @@ def merge_streams(outs):
 # per property: Lean modules holding its theorems, the streams it runs, the oracle it reads
 SPECS = {
     "C01": dict(modules=["Ovldverif.Props.C01", "Ovldverif.Props.C01Dep"], streams=["fn", "fn_rich", "dep_f", "dep_e", "dep_comb", "rewrite"], oracle="C01"),
-    "C10": dict(modules=["Ovldverif.Props.C10"], streams=["dep_e", "dep_f", "dep_lit", "dep_comb"], oracle="C10"),
+    "C10": dict(modules=["Ovldverif.Props.C10", "Ovldverif.Props.C10Order"], streams=["dep_e", "dep_f", "dep_lit", "dep_comb"], oracle="C10"),
     "C11": dict(modules=["Ovldverif.Props.C11", "Ovldverif.Props.C11Comb", "Ovldverif.Props.C10", "Ovldverif.Props.C15"], streams=["dep_e", "dep_f", "dep_lit", "dep_comb", "annotations"], oracle="C11"),
     "C02": dict(modules=["Ovldverif.Props.C02"], streams=["table_static", "fn_static", "levels"], oracle="C02"),
     "C03": dict(modules=["Ovldverif.Props.C03"], streams=["fn", "fn_static"], oracle="C03"),
@@ -138,7 +138,7 @@ STREAMS = {
     "annotations": ("corr_b", "worker", lambda seed, n: (seed + 67, n, {}), "B"),
     "fn_types": ("check_fn", "worker", lambda seed, n: (seed + 71, n, {"static_only": True, "type_args": True, "simple_sigs": True}), "F"),
     # thorough (n = 250): every line of thread 0 is a pre-emption point
-    "conc": ("check_conc", "worker", lambda seed, n: (seed + 73, 6 if n <= 100 else 2, {"exhaustive": n > 100}), "K"),
+    "conc": ("check_conc", "worker", lambda seed, n: (seed + 73, 4 if n <= 100 else 2, {"exhaustive": n > 100}), "K"),
     "classes": ("corr_j", "worker", lambda seed, n: (seed + 61, n, {}), "J"),
     "graph": ("check_graph", "worker", lambda seed, n: (seed + 19, n, {}), "G"),
     "graph_deep": ("check_graph", "worker", lambda seed, n: (seed + 23, n, {"nnodes": 6, "recurse_bias": 0.6}), "G"),
